@@ -16,6 +16,7 @@ SetOfSeq(s) == {s[j] : j \in 1..Len(s)}
 
 InitBus(c) == [gear |-> [k \in 1..Len(c.shorts) |->
                            [short |-> c.shorts[k], rand |-> c.rands[k], init |-> c.inits[k], storeOK |-> c.storeOK[k],
+                            stuckdel |-> IF "stuck" \in DOMAIN c THEN c.stuck[k] ELSE FALSE,
                             groups |-> SetOfSeq(c.groups[k]), dts |-> c.dts[k], dtpos |-> 0]],
                search |-> 0, dtr0 |-> c.dtr0]
 
